@@ -25,6 +25,7 @@ for d in sorted(glob.glob("/verif/seeded/*/")):
                      "demo_with_patch_exit": ver.get("demo_with_patch_rc"), "demo_without_patch_exit": ver.get("demo_without_patch_rc")},
         "detected_by_quick_checks": caught,
         "not_detected_by": missed,
+        "note": (open(d + "note.txt").read().strip() if os.path.exists(d + "note.txt") else ""),
         "first_counterexamples": {p: (det[p].get("first") or det[p].get("lines") or [""])[0][:400] for p in caught},
     }
     json.dump(meta, open(d + "meta.json", "w"), indent=1, ensure_ascii=False)
